@@ -225,6 +225,55 @@ func run(c *mon.Ctx) {
 			}
 		}
 	})
+	// the relations follow the current field values: compare, change a field through a setter, compare again
+	c.Stream("after-setters", c.N(3000, 500000), func(i int, r *gen.Rand) {
+		a := attrs{Type: r.PickByte([]byte{0x35, 0x37, 0x31, 0x34, 0x11, 0x41}), Event: uint32(1 + r.Intn(2)), PTS: uint64(1000 + 1000*r.Intn(2)), HasPTS: true, SegNum: byte(1 + r.Intn(2)), SegExp: byte(1 + r.Intn(2)), Noise: r.Uint32() | 1}
+		b := attrs{Type: r.PickByte([]byte{0x34, 0x36, 0x30, 0x10, 0x40, 0x3c, 0x44}), Event: uint32(1 + r.Intn(2)), PTS: uint64(1000 + 1000*r.Intn(2)), HasPTS: true, SegNum: 1, SegExp: 1, Noise: r.Uint32() | 1}
+		da, db := mk(a), mk(b)
+		check := func(when string) bool {
+			want := ref.CanClose(a.Type, b.Type, a.Event == b.Event, a.PTS == b.PTS, a.SegNum == a.SegExp)
+			c.Eval(2)
+			if got := da.CanClose(db); got != want {
+				c.Fail("canclose:after-setters", fmt.Sprintf("%s: a.CanClose(b)=%v, the documented table says %v for the current field values", when, got, want), wit{A: a, B: b, Detail: when})
+				return false
+			}
+			sameAttrs := a.Type == b.Type && a.PTS == b.PTS && a.Event == b.Event && a.SegNum == b.SegNum && a.SegExp == b.SegExp
+			if got := da.Equal(db); got != sameAttrs {
+				c.Fail("equal:after-setters", fmt.Sprintf("%s: a.Equal(b)=%v, by the definition it is %v for the current field values", when, got, sameAttrs), wit{A: a, B: b, Detail: when})
+				return false
+			}
+			return true
+		}
+		if !check("freshly built") {
+			return
+		}
+		for round := 0; round < 4; round++ {
+			switch r.Intn(6) {
+			case 0:
+				a.Event = uint32(1 + r.Intn(2))
+				da.SetEventID(a.Event)
+			case 1:
+				b.Event = uint32(1 + r.Intn(2))
+				db.SetEventID(b.Event)
+			case 2:
+				a.SegNum = byte(1 + r.Intn(2))
+				da.SetSegmentNumber(a.SegNum)
+			case 3:
+				a.SegExp = byte(1 + r.Intn(2))
+				da.SetSegmentsExpected(a.SegExp)
+			case 4:
+				b.PTS = uint64(1000 + 1000*r.Intn(2))
+				db.SCTE35().SetPTS(gots.PTS(b.PTS))
+			default:
+				b.Type = r.PickByte([]byte{0x34, 0x36, 0x30, 0x10, 0x40, 0x3c, 0x44})
+				db.SetTypeID(scte35.SegDescType(b.Type))
+			}
+			if !check(fmt.Sprintf("after setter round %d", round)) {
+				return
+			}
+		}
+		c.Class(fmt.Sprintf("after-setters/%02x>%02x", a.Type, b.Type))
+	})
 	// nil argument: never equal
 	a := mk(attrs{Type: 0x30, Event: 1, PTS: 5, HasPTS: true})
 	if a.Equal(nil) {
